@@ -721,6 +721,33 @@ func (s *Server) handleRequest(req *dhcpv4.DHCPv4) (*dhcpv4.DHCPv4, error) {
 		}
 	}
 
+	if existingLease != nil {
+		if oldMAC := existingLease.MAC.String(); oldMAC != mac.String() {
+			// Replacement CPE on the same circuit: the binding moves to the new
+			// MAC. Leaving the old entry behind would keep two leases on one
+			// address, and its expiry would free the address under the new
+			// holder.
+			s.leasesMu.Lock()
+			if s.leases[oldMAC] == existingLease {
+				delete(s.leases, oldMAC)
+			}
+			s.leasesMu.Unlock()
+			pool.Reassign(existingLease.MAC, mac)
+			if s.loader != nil {
+				s.loader.RemoveSubscriber(ebpf.MACToUint64(existingLease.MAC))
+			}
+		}
+		if oldKey := hex.EncodeToString(existingLease.CircuitID); len(existingLease.CircuitID) > 0 && oldKey != hex.EncodeToString(lease.CircuitID) {
+			// The client moved to another port: the old circuit-ID must no
+			// longer resolve to its lease
+			s.leasesByCircuitIDMu.Lock()
+			if s.leasesByCircuitID[oldKey] == existingLease {
+				delete(s.leasesByCircuitID, oldKey)
+			}
+			s.leasesByCircuitIDMu.Unlock()
+		}
+	}
+
 	s.leasesMu.Lock()
 	s.leases[mac.String()] = lease
 	s.leasesMu.Unlock()
